@@ -92,16 +92,22 @@ Section RunMulch.
 
   Theorem run_mulch_neutral c ws fuel m0 : run_till_c par crops c ws fuel m0 = run_till_c (par_mulch_off par) crops c ws fuel m0.
   Proof.
-    unfold run_till_c. symmetry. apply run_till_g_ext; try (intros; reflexivity).
+    unfold run_till_c. symmetry. apply run_till_g_ext.
     - intros. unfold defined_c. rewrite (day_mulch_neutral_concrete par) by assumption. reflexivity.
     - intros. apply proc_c_of_opt; [apply day_mulch_neutral_concrete; assumption | assumption].
+    - intros. reflexivity.
+    - intros. reflexivity.
+    - intros. reflexivity.
   Qed.
 
   Theorem run_steps_mulch_neutral c ws k m0 : run_steps_c par crops c ws k m0 = run_steps_c (par_mulch_off par) crops c ws k m0.
   Proof.
-    unfold run_steps_c. symmetry. apply run_steps_g_ext; try (intros; reflexivity).
+    unfold run_steps_c. symmetry. apply run_steps_g_ext.
     - intros. unfold defined_c. rewrite (day_mulch_neutral_concrete par) by assumption. reflexivity.
     - intros. apply proc_c_of_opt; [apply day_mulch_neutral_concrete; assumption | assumption].
+    - intros. reflexivity.
+    - intros. reflexivity.
+    - intros. reflexivity.
   Qed.
 End RunMulch.
 
@@ -172,16 +178,16 @@ Section NeutralDay.
     intros [= <-].
     destruct (irrigation_neutral _ _ _ _ _ _ _ _ (i_SMT (p_irr par)) (i_AppEff (p_irr par)) (i_MaxIrr (p_irr par)) (i_IrrInterval (p_irr par))
                 (i_Schedule (p_irr par)) (i_depth (p_irr par)) (i_MaxIrrSeason (p_irr par)) _ _ _ _ _ _ _ _ _ _ _ _ _ _ _ _ E Hc) as (E0 & Hz & _).
-    change (sel_crop par' season) with (sel_crop par season). rewrite E0. split; [reflexivity | exact Hz].
+    change (sel_crop par' season) with (sel_crop par season). change (p_soil par') with (p_soil par). rewrite E0. split; [reflexivity | exact Hz].
   Qed.
 
   Lemma n_inf r_gw r_rd r_dr r_rp r_ir : c_ir prof (arg_ir x r_rd r_dr r_rp) = Some r_ir ->
     c_inf prof (arg_inf x r_gw r_dr r_rp r_ir) = c_inf prof (arg_inf x' r_gw r_dr r_rp r_ir).
   Proof.
-    intros E. destruct (n_ir _ _ _ _ E) as [_ Hz].
+    intros _.
     unfold c_inf, arg_inf. cbv zeta.
     cbn [infA_surf infA_fcadj infA_th infA_infl infA_irr infA_eff infA_bunds infA_zbund infA_flux infA_deepperc infA_runoff infA_gs]. xs.
-    reflexivity.
+    rewrite n_sel, n_sel'. reflexivity.
   Qed.
 
   Lemma n_ev gdd r_rd r_dr r_rp r_ir r_inf r_cr r_ge r_cc : c_ir prof (arg_ir x r_rd r_dr r_rp) = Some r_ir ->
@@ -211,7 +217,8 @@ Section NeutralDay.
     unfold arg_tr at 1 2 3 4 5 6 7 8 9 10. unfold arg_tr at 2 3 4 5 6 7 8 9 10 11. cbv zeta.
     cbn [trA_ncomp trA_ztop trA_crop trA_method trA_smt trA_et0 trA_co2c trA_co2r trA_gs trA_gdd]. xs. rewrite n_sel, n_sel'.
     cbn [irr_rainfed i_method i_NetIrrSMT].
-    change (sel_crop par' season) with (sel_crop par season).
+    change (sel_crop par' season) with (sel_crop par season). change (p_soil par') with (p_soil par).
+    change (p_co2c par' season) with (p_co2c par season). change (p_co2r par') with (p_co2r par).
     rewrite (transpiration_method_inert _ _ _ (i_method (p_irr par)) 0%Z (i_NetIrrSMT (p_irr par)) (i_NetIrrSMT (p_irr par)));
       [reflexivity | apply HN | discriminate].
   Qed.
@@ -338,3 +345,45 @@ Section RunNeutral.
     - exact H0.
   Qed.
 End RunNeutral.
+
+(* the side condition of the seasonal maximum 0 is needed: with a negative seasonal counter water is applied *)
+Example irr_season_max0_refuted : RainIrr.irr_season (F:=R) 0 (-5) 3 = (-2, 3).
+Proof. unfold RainIrr.irr_season. rnum. destruct (Rltb_spec 0 (-5 + 3)); [lra|]. f_equal; lra. Qed.
+
+(* ================================================================================================================ *)
+(*  the transformations change the records                                                                            *)
+(* ================================================================================================================ *)
+Module ExNeutral.
+  Import DayP.Ex.
+  (* mulches switched on with a cover of 0 % *)
+  Definition fieldM : DField R :=
+    {| f_id := 0; f_sr_inhb := false; f_bunds := true; f_z_bund := 10; f_cn_adj := false; f_cn_adj_pct := 0; f_mulches := true;
+       f_f_mulch := 1 / 2; f_mulch_pct := 0; f_bund_water := 0 |}.
+  Definition parM : DPar R :=
+    {| p_soil := soil0; p_irr := irr0; p_fallow_irr := irr0; p_field := fieldM; p_fallow_field := fieldM; p_crop := fun _ => crop0;
+       p_fallow_crop := crop0; p_water_table := 0; p_co2c := fun _ => 400; p_co2r := 36941 / 100; p_evap_steps := 20; p_sim_off := false |}.
+  Example mulch_pair_differs : par_mulch_off parM <> parM.
+  Proof. intros H. apply (f_equal (fun p => f_mulches (p_field p))) in H. cbn in H. discriminate. Qed.
+  Example mulch_pair_run crops c ws fuel m0 : run_till_c parM crops c ws fuel m0 = run_till_c (par_mulch_off parM) crops c ws fuel m0.
+  Proof. apply run_mulch_neutral; right; left; reflexivity. Qed.
+
+  (* a constant depth of 0 mm under method 5 *)
+  Definition irr5 : DIrr R :=
+    {| i_id := 0; i_method := 5; i_SMT := [70; 70; 70; 70]; i_AppEff := 100; i_MaxIrr := 25; i_IrrInterval := 3; i_Schedule := [];
+       i_depth := 0; i_MaxIrrSeason := 10000; i_NetIrrSMT := 80; i_WetSurf := 100 |}.
+  Definition parN : DPar R :=
+    {| p_soil := soil0; p_irr := irr5; p_fallow_irr := irr0; p_field := field0; p_fallow_field := field0; p_crop := fun _ => crop0;
+       p_fallow_crop := crop0; p_water_table := 0; p_co2c := fun _ => 400; p_co2r := 36941 / 100; p_evap_steps := 20; p_sim_off := false |}.
+  Example rainfed_pair_differs : par_rainfed parN <> parN.
+  Proof. intros H. apply (f_equal (fun p => i_method (p_irr p))) in H. cbn in H. discriminate. Qed.
+  Example rainfed_pair_run crops c ws fuel m0 r : 0 <= d_irr_cum (phys (st m0)) ->
+    run_till_c parN crops c ws fuel m0 = Some r -> not_stopped r -> run_till_c (par_rainfed parN) crops c ws fuel m0 = Some r.
+  Proof. apply run_neutral_concrete. split; [discriminate | left; split; reflexivity]. Qed.
+End ExNeutral.
+
+Print Assumptions day_mulch_neutral_concrete.
+Print Assumptions run_mulch_neutral.
+Print Assumptions run_steps_mulch_neutral.
+Print Assumptions day_irrigation_neutral_concrete.
+Print Assumptions run_neutral_concrete.
+Print Assumptions run_steps_neutral_concrete.
